@@ -122,7 +122,7 @@ func OrderCase(r *sim.R, k int, run Scheduler, errKind func(error) string) {
 	case 2:
 		run("CompareConfigs", detail, true, func() (string, string, uint64) {
 			rebuild()
-			other, err := ucfg.NewFrom(layerToGo(e.root), e.baseOpts...)
+			other, err := ucfg.NewFrom(e.layerToGo(e.root), e.baseOpts...)
 			if err != nil {
 				return errKind(err), "", 0
 			}
@@ -139,7 +139,7 @@ func OrderCase(r *sim.R, k int, run Scheduler, errKind func(error) string) {
 	case 3:
 		// creation itself under the schedule (references are parsed, not evaluated)
 		run("NewFrom", detail, true, func() (string, string, uint64) {
-			c, err := ucfg.NewFrom(layerToGo(e.root), e.baseOpts...)
+			c, err := ucfg.NewFrom(e.layerToGo(e.root), e.baseOpts...)
 			if err != nil {
 				return errKind(err), "", 0
 			}
